@@ -7,7 +7,7 @@ Section P.
   Notation opc := (on_processed_custom cmarshal modify).
 
   Ltac crush c i :=
-    destruct c as [ae hm he]; destruct i as [orig op res err nid mok tok pok sw];
+    destruct c as [ae hm he]; destruct i as [orig op res err nid mok tok pok sw ek cx];
     unfold on_processed_custom; simpl;
     destruct orig; simpl; auto;
     destruct (cmarshal res err) as [m|] eqn:Em; simpl; auto;
@@ -61,7 +61,7 @@ Section P.
     on_processed_custom (cmarshal_json enc (p_nid i)) (fun n => if p_modify_ok i then Some n else None) c i
     = on_processed enc c i.
   Proof.
-    destruct c as [ae hm he]; destruct i as [orig op res err nid mok tok pok sw].
+    destruct c as [ae hm he]; destruct i as [orig op res err nid mok tok pok sw ek cx].
     unfold on_processed_custom, on_processed, cmarshal_json, stamp_op; simpl.
     intros Hm. destruct orig; simpl; auto. destruct (enc res); simpl; auto.
     destruct (N.eqb op 0); simpl; auto.
